@@ -331,6 +331,16 @@ def _strip_props(d):
     return {k: v for k, v in d.items() if k not in ("tokenizer_element_tree_concrete", "name")}
 
 
+_DEMO = []
+def _demo_maze():
+    if not _DEMO:
+        import numpy as np
+        from maze_dataset import SolvedMaze
+        cl = np.zeros((2, 3, 3), dtype=bool); cl[1, 0, 0] = cl[1, 0, 1] = cl[0, 0, 2] = cl[0, 1, 2] = cl[1, 2, 1] = cl[0, 1, 1] = True
+        _DEMO.append(SolvedMaze(connection_list=cl, solution=np.array([[0, 0], [0, 1], [0, 2], [1, 2], [2, 2], [2, 1]])))
+    return _DEMO[0]
+
+
 def _check_tokenizer(ctx, tok, m, legacy_keys, origin):
     mt, _, _ = _mods()
     val = to_val(tok)
@@ -361,6 +371,16 @@ def _check_tokenizer(ctx, tok, m, legacy_keys, origin):
     twin = from_val(val)
     if not (twin == tok) or twin.name != tok.name or hash(twin) != hash(tok):
         ctx.violate(f"an equal tokenizer built separately differs in ==/name/hash: {tok.name}", dict(case, kind="equal-twin"))
+    # identity must not change by USING the tokenizer: tokenize a solved maze, then name / hash / == against the unused twin again
+    if valid:
+        before = (tok.name, hash(tok))
+        try:
+            tok.to_tokens(_demo_maze())
+        except Exception:
+            pass   # tokenization itself is C06's business
+        if (tok.name, hash(tok)) != before or not (twin == tok) or twin.name != tok.name or hash(twin) != hash(tok):
+            ctx.violate(f"after tokenizing a maze the tokenizer's identity changed: name {before[0]!r} -> {tok.name!r}, hash {before[1]} -> {hash(tok)}; "
+                        f"an equal unused tokenizer has name {twin.name!r}", dict(case, kind="identity-changes-with-use"))
     leg = bool(tok.is_legacy_equivalent())
     if leg != (json.dumps(val, sort_keys=True) in legacy_keys):
         ctx.violate(f"is_legacy_equivalent() = {leg} for {tok.name}, but it {'is not' if leg else 'is'} the image of a legacy mode",
